@@ -1,6 +1,8 @@
 SPECIFICATION Spec
 CONSTANTS
   KeyMode = "address"
+  CacheShared = FALSE
+  WithConvs = FALSE
   MaxOps = 6
 INVARIANT Isolated
 VIEW StateView
